@@ -349,6 +349,10 @@ func (i *interpreter) symIndexAddr(fr *frame, cells []value, idx *sym, tElt type
 	if len(cells) <= 512 && scalarCells(cells) {
 		return symptr{arr: cells, idx: t}
 	}
+	if _, isStruct := tElt.Underlying().(*types.Struct); isStruct && len(cells) <= 512 && len(cells) > i.ex.run.cfg.ConcMax && plainData(tElt, 0) {
+		// more slots than concretising may fork over: the element stays symbolic (symagg.go)
+		return symptr{arr: cells, idx: t, elt: tElt}
+	}
 	p := &cells[i.ex.Concretize(fr, t, "index")]
 	forceT(p, tElt)
 	return p
